@@ -222,16 +222,19 @@ class EvolvableNetwork(EvolvableModule, metaclass=NetworkMeta):
         self.recurrent = recurrent
         self.flatten_obs = False
 
+        # NOTE: We work on a copy since the configuration is completed below
         encoder_config = (
-            encoder_config
+            dict(encoder_config)
             if isinstance(encoder_config, dict)
             else asdict(encoder_config)
         )
 
         # By default we use same activation for encoder output as for the rest of the network
+        # (a configuration that doesn't specify it uses the default activation of the modules,
+        # so that rebuilding the network from its `init_dict` gives the same architecture)
         output_activation = encoder_config.get("output_activation")
         if output_activation is None:
-            activation = encoder_config.get("activation")
+            activation = encoder_config.get("activation", "ReLU")
             encoder_config["output_activation"] = activation
 
         if encoder_cls is not None:
